@@ -1,11 +1,12 @@
 """C03 — radial transforms are analytically self-consistent for all parameters."""
 import importlib
 import math
+import sys
 
 import numpy as np
 
 from ..common import Ctx, b2f, close, driver_batch, f2b, fvec
-from . import c03_ext
+from . import c03_ext, c03_r3
 
 LEVEL = "proof"
 LEVEL_TEXT = (
@@ -26,7 +27,13 @@ LEVEL_TEXT = (
     "by IEEE +-inf/nan) finite values of every magnitude pass _convert_inf, both branches agree, and the forward map AT the "
     "singular end is inf, trimmed to 1e16 (Becke, MultiExp, Knowles, Handy; Becke also deriv); InverseRTransform(T) is a "
     "transform for each of the 11 classes (generated domain/codomain swap, derivative package, round trip, no "
-    "ZeroDivisionError, sign of the Jacobian, image inside the codomain); Jacobian limits at the singular end (Becke, MultiExp)."
+    "ZeroDivisionError, sign of the Jacobian, image inside the codomain); Jacobian limits at the singular end (Becke, MultiExp). "
+    "Round 3: set_maximum_parameter_b of the three b-scaled maps and the power < 2 warning of PowerRTransform.transform are translated "
+    "statement by statement; the guard window is the regenerated constant (raises iff |max(x)| < the double 1e-16, which is 1e-16 to "
+    "1e-32), an accepted grid in [0, inf) gives b > 0 and the map with that b sends 0 to rmin and b to rmax; once set, b never changes; "
+    "a rejected grid leaves b = None (the check precedes the assignment, repair 92a7e5b: setb_rejected_keeps_none); "
+    "deriv_inverse / deriv2_inverse / deriv3_inverse raise exactly when the first derivative at the preimage is 0 (no non-zero value "
+    "of any magnitude is rejected) and never where the inverse-function package applies; the warning is issued iff rmax < rmin (b+1)^2."
 )
 TECHNIQUE = ("Lean 4 / Mathlib proof (HasDerivAt combinators, inverse-function theorem, mean-value monotonicity) over "
              "definitions translated from the Python AST + differential run of the generated definitions + mpmath oracle "
@@ -39,7 +46,7 @@ CLASSES = ["BeckeRTransform", "LinearFiniteRTransform", "IdentityRTransform", "L
 LEAN_MODULES = [f"GridVerif.Props.C03.{c}" for c in CLASSES] + [
     "GridVerif.Props.C03.InverseRTransform", "GridVerif.Props.C03.ConvertInf",
     "GridVerif.Props.C03.FindParameter", "GridVerif.Props.C03.Trimming", "GridVerif.Props.C03.Composition",
-    "GridVerif.Props.C03.DerivEnds"]
+    "GridVerif.Props.C03.DerivEnds", "GridVerif.Props.C03.Thresholds"]
 
 _COMMON = ["hasDerivAt_transform", "hasDerivAt_deriv", "hasDerivAt_deriv2", "inverse_transform", "transform_inverse",
            "localInverseAt", "inverse_derivs"]
@@ -81,7 +88,14 @@ THEOREMS = [f"GridVerif.C03.{c}.{t}" for c in CLASSES for t in _COMMON + _EXTRA[
     f"GridVerif.C03.Composition.{t}" for t in
     ["domain_swap", "ofLocalInverse", "becke", "linearFinite", "identity", "linearInfinite", "exp", "power", "hyperbolic", "multiExp",
      "knowles", "handy", "handyMod", "linearInfinite_inverse_pos", "exp_inverse_pos", "power_inverse_pos"]] + [
-    "GridVerif.C03.DerivEnds.becke_tendsto_deriv_domain_hi", "GridVerif.C03.DerivEnds.multiExp_tendsto_deriv_domain_lo"]
+    "GridVerif.C03.DerivEnds.becke_tendsto_deriv_domain_hi", "GridVerif.C03.DerivEnds.multiExp_tendsto_deriv_domain_lo"] + [
+    # round 3: the hard-coded thresholds as regenerated (set_maximum_parameter_b guard window, == 0 guards, power < 2 warning)
+    f"GridVerif.C03.Thresholds.{t}" for t in
+    ["bGuard_pos", "bGuard_window", "linearInfinite_setb_raises_iff", "exp_setb_raises_iff", "power_setb_raises_iff",
+     "setb_noop_once_set", "setb_first_grid", "setb_rejected_keeps_none", "setb_none_iff_raises", "inferred_b_ge_guard", "linearInfinite_inferred_end_points",
+     "exp_inferred_end_points", "power_inferred_end_points", "deriv_inverse_raises_iff", "deriv2_inverse_raises_iff",
+     "deriv3_inverse_raises_iff", "inverse_derivs_do_not_raise", "power_transform_warns_iff_power", "power_transform_warns_iff",
+     "power_transform_warn_stacklevel"]]
 
 RULE = (
     "correspondence: every generated definition (11 classes x transform/inverse/deriv/deriv2/deriv3/deriv_inverse/"
@@ -104,7 +118,14 @@ RULE = (
     "(iii) state: two objects sharing leading parameters, same array twice, same size other values, in-place edit of the same array "
     "object, temporaries, rebuilt objects, scalars in between, b explicit and inferred from the first array; every element compared with "
     "the stateless generated model (rtol 1e-10; single-precision computations 2e-3; ill-conditioned points judged against the 40-digit "
-    "run); all counted non-trivial"
+    "run); all counted non-trivial; "
+    "round 3 (c03_r3.py): every hard-coded threshold from both sides within 1 ulp / 1 % / a factor 100 (|max(x)| vs 1e-16 of "
+    "set_maximum_parameter_b directly and through 4 methods, b None or set; power vs 2 of the PowerRTransform warning incl. category and "
+    "attributed stack frame; constructor guards at +-5e-324, +-1e-300, -0.0, neighbouring doubles of 1; b (size-1) vs 1 of "
+    "HyperbolicRTransform; method values 0.01 .. 100 x 1e16 and exactly 1e16 with trimming on), parameters scaled by 2^-100 .. 2^100, "
+    "intervals rmax - rmin = 2^-26 rmin, HandyMod 2^-13 .. 2^40 off its bound, points scale x 10^-14 .. 10^3, every method as the first call on a "
+    "fresh b=None object, set_maximum_parameter_b as a public method before / between calls, the returned array overwritten by the caller "
+    "before the call is repeated; all counted non-trivial except the already-set no-op cases"
 )
 TRUSTED_BASE = [
     "Lean 4.33 kernel; Mathlib; axioms propext, Classical.choice, Quot.sound only (audited per theorem)",
@@ -116,6 +137,8 @@ TRUSTED_BASE = [
     "XReal (Lemmas/XReal.lean): the reading of IEEE-754 special values over exact reals (x/0 = +-inf, 0/0 = inf-inf = 0*inf = nan, "
     "comparisons with nan false, log 0 = -inf, one unsigned zero dividing like +0); finite arithmetic is exact (no rounding, no overflow)",
     "pyIndex / Int.fdiv / Int.fmod (Model/RTransform.lean, Lean core) as the meaning of Python's a[i], //, % in find_parameter; tied by correspondence",
+    "round 3: `x_max` of the generated set_maximum_parameter_b stands for np.max(x); `self.b` after `self._b = np.max(x)` is read as that value; "
+    "the warning message text is not carried (condition, category and stacklevel are); tied by correspondence (C03.setb, C03.warns)",
 ]
 ASSUMPTIONS = [
     "IEEE rounding is not modelled: equalities are over ℝ, the correspondence uses rtol 1e-10 (conditioning-limited points near the ends excluded)",
@@ -331,11 +354,13 @@ def corr(ctx: Ctx):
                          f"{meth}({x!r}) [array of {len(arg)}]: implementation {iv!r}, generated model {a if mval is None else mval!r}",
                          witness={"class": cls, "params": ps, "trim": trim, "method": meth, "x": x, "wrapped": op == "evalinv",
                                   "impl": iv, "model": a if mval is None else mval})
-    _corr_guards(ctx, mod)
-    _corr_round2(ctx, mod)      # before the parts that consult the translator (which raises on source it cannot carry)
-    _corr_scalar_and_convinf(ctx, mod)
-    _corr_inferred_b(ctx, mod)
-    c03_ext.corr_ext(ctx, CLASSES, gen_params, construct, _within_rounding_noise, end_points)
+    c03_r3.run_parts([
+        lambda: _corr_guards(ctx, mod),
+        lambda: _corr_round2(ctx, mod),      # before the parts that consult the translator (which raises on source it cannot carry)
+        lambda: _corr_scalar_and_convinf(ctx, mod),
+        lambda: _corr_inferred_b(ctx, mod),
+        lambda: c03_ext.corr_ext(ctx, CLASSES, gen_params, construct, _within_rounding_noise, end_points),
+        lambda: c03_r3.corr_r3(ctx, sys.modules[__name__])])
 
 
 def _within_rounding_noise(ctx, mod, op, cls, ps, trim, meth, x, iv, mval):
@@ -762,11 +787,15 @@ def oracle(ctx: Ctx, budget: str):
                                  f"between consecutive grid points up to {x}", witness={"class": cls, "params": ps, "x": x})
                     prev = r
             _oracle_end_points(ctx, cls, ps, trim, Tf, T)
-    _oracle_knowles_end_point(ctx, mod, budget)
-    _oracle_scalar_arguments(ctx, mod)
-    _oracle_excluded_parameters(ctx, mod)
-    _oracle_round2(ctx, mod, budget)
-    c03_ext.oracle_ext(ctx, budget, CLASSES, gen_params, construct, end_points)
+    # every part runs even when an earlier one raised (a changed tree may reject what a probe constructs); the first
+    # exception is re-raised at the end, so the runner still reports the crash
+    c03_r3.run_parts([
+        lambda: _oracle_knowles_end_point(ctx, mod, budget),
+        lambda: _oracle_scalar_arguments(ctx, mod),
+        lambda: _oracle_excluded_parameters(ctx, mod),
+        lambda: _oracle_round2(ctx, mod, budget),
+        lambda: c03_ext.oracle_ext(ctx, budget, CLASSES, gen_params, construct, end_points),
+        lambda: c03_r3.oracle_r3(ctx, budget, sys.modules[__name__])])
 
 
 def _oracle_end_points(ctx, cls, ps, trim, Tf, T):
@@ -976,6 +1005,11 @@ def _rtol_of(st):
         r = 2e-3        # single-precision arithmetic at benign points (1 - q**k, 1 - exp(..) lose 3-4 of the 7 digits)
     if "np.float32" in o["pkinds"]:
         r = max(r, 1e-5)    # parameter-only subexpressions (2**k, 1/m, log(rmax/rmin)) run in single precision
+        if (WRAP_OF[st["meth"]] if o["wrapped"] else st["meth"]) in ("deriv2_inverse", "deriv3_inverse"):
+            # -d2/d1**3 and (3 d2**2 - d1 d3)/d1**5 cancel (the higher derivatives of the inverse map change sign inside the
+            # domain): a single-precision 1/k (2e-8) is amplified by the cancellation factor (seed 14: factor 130 -> 1.1e-5).
+            # The float64-parameter objects of the same section keep rtol 1e-10 for these two methods.
+            r = max(r, 1e-3)
     return r
 
 
